@@ -345,6 +345,11 @@ func (vc *VC) loadGlobal(g *ssa.Global, st *State) string {
 		cn := "g." + sanitize(g.Pkg.Pkg.Path()+"."+g.Name())
 		if _, seen := vc.d.funs[cn]; !seen {
 			vc.d.declFun(cn, fmt.Sprintf("(declare-const %s %s)", cn, srt))
+			// a value held by a package-level variable since initialisation is well-typed and was allocated before
+			// this activation started
+			if f := vc.d.rangeAssume(cn, T, "alloc!0", 0); f != "" {
+				vc.d.axioms = append(vc.d.axioms, "(assert "+f+")")
+			}
 			if kind == "err" || kind == "nonnil" {
 				vc.d.axioms = append(vc.d.axioms, fmt.Sprintf("(assert (> %s 0))", cn))
 			}
